@@ -1216,12 +1216,23 @@ impl Predicate {
         }
     }
 
+    /// Same as `get_delta`, computed in 64 bits: the difference of two `i32` values
+    /// (and the `- 1` of the strict predicates) does not fit an `i32` in general.
+    pub(crate) fn get_delta_wide(&self, attr_value: i32) -> i64 {
+        match self.p_type {
+            PredicateType::GE => i64::from(attr_value) - i64::from(self.value),
+            PredicateType::GT => i64::from(attr_value) - i64::from(self.value) - 1,
+            PredicateType::LE => i64::from(self.value) - i64::from(attr_value),
+            PredicateType::LT => i64::from(self.value) - i64::from(attr_value) - 1,
+        }
+    }
+
     pub fn get_delta_prime(&self) -> ClResult<BigNumber> {
         match self.p_type {
             PredicateType::GE => BigNumber::from_dec(&self.value.to_string()),
-            PredicateType::GT => BigNumber::from_dec(&(self.value + 1).to_string()),
+            PredicateType::GT => BigNumber::from_dec(&(i64::from(self.value) + 1).to_string()),
             PredicateType::LE => BigNumber::from_dec(&self.value.to_string()),
-            PredicateType::LT => BigNumber::from_dec(&(self.value - 1).to_string()),
+            PredicateType::LT => BigNumber::from_dec(&(i64::from(self.value) - 1).to_string()),
         }
     }
 
